@@ -8,7 +8,7 @@ import numpy as np
 import sympy as sp
 
 from .core import AnalysisError, Finding, Run, norm_text
-from .interp import Fork, Frame, Interp, Raised, UnknownTruth
+from .interp import Fork, Frame, Interp, Raised, UnknownBool, UnknownTruth
 
 MOD = 'data_driven.tgedmd'
 
@@ -97,6 +97,33 @@ class NpObject:
 class Dom:
     builtins = {'print': lambda *a, **k: None}
 
+    def __init__(self):
+        self.facts = []          # equalities assumed on the path being explored: (expression, value)
+
+    def compare(self, op, left, right):
+        """== / != of symbolic scalars: sympy's == is structural (f(x) == 0 is False whatever f is); here it is decided only when the difference vanishes
+        identically or is a non-zero number, otherwise both outcomes are explored and the equality branch carries the assumption"""
+        import ast as _ast
+        if not isinstance(op, (_ast.Eq, _ast.NotEq)) or not (isinstance(left, sp.Basic) or isinstance(right, sp.Basic)):
+            return None
+        if not all(isinstance(v, (sp.Basic, int, float)) and not isinstance(v, bool) for v in (left, right)):
+            return None
+        d = sp.sympify(left) - sp.sympify(right)
+        if d.is_number:
+            eq = bool(sp.nsimplify(d) == 0)
+        elif zero(d):
+            eq = True
+        else:
+            b = UnknownBool(f'{left} == {right}')
+            b.fact = (sp.sympify(left), sp.sympify(right), isinstance(op, _ast.Eq))
+            return b
+        return eq if isinstance(op, _ast.Eq) else not eq
+
+    def on_branch(self, it, node, v, choice):
+        f = getattr(v, 'fact', None)
+        if f is not None and choice == f[2]:
+            self.facts.append((f[0], f[1]))
+
     def truth(self, v):
         if isinstance(v, sp.Basic):
             if v is sp.true:
@@ -107,13 +134,48 @@ class Dom:
         return None
 
 
-def run_fn(repo, qual, *args, **kwargs):
-    it = Interp(repo, libs={'numpy': NpObject(), 'typing': object(), 'math': math}, domain=Dom(), intercept={'utils.progress': lambda it, *a, **k: 0.0})
+def assume(e, facts):
+    """the expression under the equalities assumed on a path: the value of an uninterpreted function (or a symbol) is replaced, its derivatives are left alone
+    (f(x) = 0 at a point says nothing about grad f(x))"""
+    e = sp.sympify(e)
+    for lhs, rhs in facts:
+        if not isinstance(lhs, (sp.Symbol, sp.core.function.AppliedUndef)):
+            lhs, rhs = rhs, lhs
+        if not isinstance(lhs, (sp.Symbol, sp.core.function.AppliedUndef)):
+            raise AnalysisError(f'a branch assumes {lhs} == {rhs}, which is not an assumption on one symbol or function value')
+        keep = {d: sp.Dummy() for d in e.atoms(sp.Derivative)}
+        back = {v: k for k, v in keep.items()}
+        e = e.xreplace(keep).xreplace({lhs: rhs}).xreplace(back)
+    return e
+
+
+def run_paths(repo, qual, *args, **kwargs):
+    """[(result, assumed equalities)] for every combination of outcomes of the tests the symbolic domain cannot decide"""
+    out, stack = [], [[]]
+    while stack:
+        ch = stack.pop()
+        if len(out) + len(stack) > 64:
+            raise AnalysisError(f'{qual}: more than 64 paths')
+        dom = Dom()
+        try:
+            out.append((run_fn(repo, qual, *args, _dom=dom, _choices=ch, **kwargs), list(dom.facts)))
+        except Fork:
+            stack.append(ch + [False])
+            stack.append(ch + [True])
+    return out
+
+
+def run_fn(repo, qual, *args, _dom=None, _choices=None, **kwargs):
+    it = Interp(repo, libs={'numpy': NpObject(), 'typing': object(), 'math': math}, domain=_dom or Dom(), intercept={'utils.progress': lambda it, *a, **k: 0.0})
     fn = repo.fn(qual)
     it.stack.append(Frame(fn, repo.modules[fn.mod], {}))
+    if _choices is not None:
+        it.choices = list(_choices)
     try:
         return it.call_fn(fn, list(args), kwargs)
     except Fork:
+        if _choices is not None:
+            raise
         raise AnalysisError(f'{qual}: undecidable test {it.fork_log[-1]}')
     except Raised as r:
         if getattr(r, 'native', False) and (r.exc_type in ('TypeError', 'AttributeError') or 'must be of integer' in r.message or 'object' in r.message):
@@ -179,23 +241,27 @@ def check(repo, tier):
             for l in range(p):
                 prod = prod * basis[l][s[l]].expr
             try:
-                got = run_fn(repo, f'{MOD}.generator_on_product', basis, s, obj(xs), bvec, sigma)
+                paths = run_paths(repo, f'{MOD}.generator_on_product', basis, s, obj(xs), bvec, sigma)
             except Raised as r:
                 raise AnalysisError(f'generator_on_product raised {r} at {r.where}')
-            ok = zero(got - gen(prod))
-            run.oblige('D1', ('generator_on_product', p, s), ok, sample={'rule': 'D1', 'modes': p, 'index': list(s), 'verdict': 'held' if ok else 'VIOLATED'} if s == tuple([0] * p) else None)
-            if not ok:
-                run.add(F_(f'{MOD}.generator_on_product', 'D1', 'product rule', f'{p} modes, index tuple {s}: the returned expression differs from the generator applied to the product by {sp.expand(got - gen(prod))}'[:600]))
+            for got, facts in paths:
+                cond = (' on the path that assumes ' + ', '.join(f'{a_} == {b_}' for a_, b_ in facts)) if facts else ''
+                ok = zero(assume(got - gen(prod), facts))
+                run.oblige('D1', ('generator_on_product', p, s, cond), ok, sample={'rule': 'D1', 'modes': p, 'index': list(s), 'verdict': 'held' if ok else 'VIOLATED'} if s == tuple([0] * p) and not facts else None)
+                if not ok:
+                    run.add(F_(f'{MOD}.generator_on_product', 'D1', 'product rule', f'{p} modes, index tuple {s}{cond}: the returned expression differs from the generator applied to the product by {sp.expand(assume(got - gen(prod), facts))}'[:600]))
             for i in range(E):
                 try:
-                    got = run_fn(repo, f'{MOD}.generator_on_product_reversible', basis, s, i, obj(xs), sigma)
+                    paths = run_paths(repo, f'{MOD}.generator_on_product_reversible', basis, s, i, obj(xs), sigma)
                 except Raised as r:
                     raise AnalysisError(f'generator_on_product_reversible raised {r} at {r.where}')
                 want = sum(sigma[k, i] * sp.diff(prod, xs[k]) for k in range(D))
-                ok = zero(got - want)
-                run.oblige('D1', ('generator_on_product_reversible', p, s, i), ok)
-                if not ok:
-                    run.add(F_(f'{MOD}.generator_on_product_reversible', 'D1', 'gradient form', f'{p} modes, index tuple {s}, noise direction {i}: returned {got}, expected sigma[:, i] . grad(product) = {want}'[:600]))
+                for got, facts in paths:
+                    cond = (' on the path that assumes ' + ', '.join(f'{a_} == {b_}' for a_, b_ in facts)) if facts else ''
+                    ok = zero(assume(got - want, facts))
+                    run.oblige('D1', ('generator_on_product_reversible', p, s, i, cond), ok)
+                    if not ok:
+                        run.add(F_(f'{MOD}.generator_on_product_reversible', 'D1', 'gradient form', f'{p} modes, index tuple {s}, noise direction {i}{cond}: returned {assume(got, facts)}, expected sigma[:, i] . grad(product) = {assume(want, facts)}'[:600]))
     f0 = Fn('f', xs)
     got = run_fn(repo, f'{MOD}._generator', f0, obj(xs), bvec, sigma)
     ok = zero(got - gen(f0.expr))
